@@ -74,14 +74,14 @@ Inductive radix := RDec | ROct | RHex | RBin.
 Definition body_value (body : string) : option (radix * Z) :=
   match list_of_string body with
   | z :: x :: r =>
-      if zascii z =? 48 then
-        if (zascii x =? 120) || (zascii x =? 88) then option_map (pair RHex) (digits_value hex_digit 16 r)
-        else if (zascii x =? 98) || (zascii x =? 66) then option_map (pair RBin) (digits_value bin_digit 2 r)
+      if Ascii.eqb z "0" then
+        if Ascii.eqb x "x" || Ascii.eqb x "X" then option_map (pair RHex) (digits_value hex_digit 16 r)
+        else if Ascii.eqb x "b" || Ascii.eqb x "B" then option_map (pair RBin) (digits_value bin_digit 2 r)
         else option_map (pair ROct) (digits_value oct_digit 8 (z :: x :: r))
       else option_map (pair RDec) (digits_value dec_digit 10 (z :: x :: r))
-  | [z] => if zascii z =? 48 then Some (ROct, 0) else option_map (pair RDec) (digits_value dec_digit 10 [z])
+  | [z] => if Ascii.eqb z "0" then Some (ROct, 0) else option_map (pair RDec) (digits_value dec_digit 10 [z])
   | [] => None
-  end.
+  end%char.
 
 (* the type is the first of the list in 6.4.4.1p5 that can represent the value; in the
    preprocessor every signed type is intmax_t and every unsigned type uintmax_t.
@@ -103,11 +103,10 @@ Definition lit_sem (body sfx : string) : option val :=
 (* ---------- character constants (6.4.4.4); values above 127 have an
    implementation-defined sign and are outside the specification ---------- *)
 Definition simple_escape (c : ascii) : option Z :=
-  let n := zascii c in
-  if n =? 110 then Some 10 else if n =? 116 then Some 9 else if n =? 114 then Some 13
-  else if n =? 97 then Some 7 else if n =? 98 then Some 8 else if n =? 102 then Some 12
-  else if n =? 118 then Some 11 else if n =? 92 then Some 92 else if n =? 39 then Some 39
-  else if n =? 34 then Some 34 else if n =? 63 then Some 63 else None.
+  (if Ascii.eqb c "n" then Some 10 else if Ascii.eqb c "t" then Some 9 else if Ascii.eqb c "r" then Some 13
+   else if Ascii.eqb c "a" then Some 7 else if Ascii.eqb c "b" then Some 8 else if Ascii.eqb c "f" then Some 12
+   else if Ascii.eqb c "v" then Some 11 else if Ascii.eqb c "\" then Some 92 else if Ascii.eqb c "'" then Some 39
+   else if Ascii.eqb c """" then Some 34 else if Ascii.eqb c "?" then Some 63 else None)%char.
 
 Definition char_sem (spelling : string) : option val :=
   let small (n : Z) := if n <? 128 then Some (V n false) else None in
